@@ -147,4 +147,22 @@ theorem f32ToF64_inf (x : ℕ) (n : Bool) (hx : decode b32 x = .inf n) : decode 
   rw [hx]
   cases n <;> decide +kernel
 
+/-- the only non-negative infinite `u64` pattern. -/
+theorem inf_pattern (x : ℕ) (hx64 : x < 2 ^ 64) (h : decode b64 x = .inf false) : x = b64.infBits := by
+  have hE : b64.emaxB = 2047 := by decide
+  have hq : b64.qmin = -1074 := by decide
+  have hmb : b64.mb = 52 := rfl
+  have heb : b64.eb = 11 := rfl
+  have hinf : b64.infBits = 2047 * 2 ^ 52 := by decide
+  unfold decode at h
+  simp only [hE, hq, hmb, heb] at h
+  split at h
+  · next h1 =>
+    split at h
+    · next h2 =>
+      simp only [Dec.inf.injEq, decide_eq_false_iff_not] at h
+      rw [hinf]; omega
+    · simp at h
+  · split at h <;> simp at h
+
 end Ruint.Float
